@@ -9,6 +9,7 @@ import (
 	"strings"
 	"syscall"
 	"testing"
+	"time"
 
 	"github.com/sheerbytes/sheerbytes/internal/app"
 	"github.com/sheerbytes/sheerbytes/internal/verifkit"
@@ -163,6 +164,16 @@ func c13Materialize(dir string, c c13Case) ([]string, error) {
 			}
 		}
 	}
+	// every file and directory gets a modification time of its own (origin evidence for the check)
+	n := int64(0)
+	filepath.Walk(dir, func(path string, fi os.FileInfo, err error) error {
+		if err == nil && (fi.Mode().IsRegular() || fi.IsDir()) {
+			n++
+			ts := time.Unix(1_600_000_000+n*7, 0)
+			os.Chtimes(path, ts, ts)
+		}
+		return nil
+	})
 	return roots, nil
 }
 
@@ -267,7 +278,10 @@ func TestVerifC13Scan(t *testing.T) {
 			rec.Class("resolver-error")
 			return
 		}
-		// reference top-level names (documented disambiguation: ordinal prefix k_ when a base name occurs more than once)
+		// Top-level names. Which name an argument gets is the tool's choice (the statement asks
+		// for distinct paths that resolve back to their origin, not for a naming scheme), so
+		// the assignment is recovered from the manifest: a top-level name belongs to the
+		// argument its resolver entry points at, and every argument must get a name of its own.
 		bases := make([]string, len(paths))
 		count := map[string]int{}
 		for i, p := range paths {
@@ -275,21 +289,50 @@ func TestVerifC13Scan(t *testing.T) {
 			bases[i] = filepath.Base(ap)
 			count[bases[i]]++
 		}
-		seenBase := map[string]int{}
-		tops := make([]string, len(paths))
-		for i := range paths {
-			seenBase[bases[i]]++
-			tops[i] = bases[i]
+		for i := range bases {
 			if count[bases[i]] > 1 {
-				tops[i] = fmt.Sprintf("%d_%s", seenBase[bases[i]], bases[i])
 				classes["base-name-collision"] = true
 			}
+			if (strings.HasPrefix(bases[i], "1_") || strings.HasPrefix(bases[i], "2_")) && count[bases[i][2:]] > 0 {
+				classes["prefix-lookalike"] = true
+			}
 		}
+		tops := make([]string, len(paths))
 		for i := range tops {
-			for j := range tops {
-				if i != j && strings.HasPrefix(bases[j], "1_") || strings.HasPrefix(bases[j], "2_") {
-					classes["prefix-lookalike"] = true
+			tops[i] = fmt.Sprintf("<no top-level name for argument %d>", i)
+		}
+		assigned := make([]bool, len(paths))
+		seenTop := map[string]bool{}
+		for _, it := range m.Items {
+			top := strings.SplitN(it.RelPath, "/", 2)[0]
+			if seenTop[top] {
+				continue
+			}
+			seenTop[top] = true
+			rst, rerr2 := os.Stat(resolver(top))
+			if rerr2 != nil {
+				continue // reported below as an item beneath no given path
+			}
+			// arguments naming the same file are interchangeable as origin; among them prefer the
+			// one whose spelling the name is derived from (a link argument keeps the link's name)
+			pick := -1
+			for i := range paths {
+				if assigned[i] {
+					continue
 				}
+				if ast, err := os.Stat(absTargets[i]); err == nil && os.SameFile(rst, ast) {
+					if pick < 0 {
+						pick = i
+					}
+					if top == bases[i] || strings.HasSuffix(top, "_"+bases[i]) {
+						pick = i
+						break
+					}
+				}
+			}
+			if pick >= 0 {
+				assigned[pick] = true
+				tops[pick] = top
 			}
 		}
 		// (2) distinct, slash separated, sorted
@@ -297,13 +340,7 @@ func TestVerifC13Scan(t *testing.T) {
 		for i, it := range m.Items {
 			seen[it.RelPath]++
 			if seen[it.RelPath] > 1 {
-				sig := "duplicate-rel-path"
-				for _, b := range bases {
-					if strings.HasPrefix(b, "1_") || strings.HasPrefix(b, "2_") {
-						sig = "prefix-lookalike-collision"
-					}
-				}
-				if rec.Fail(rt, sig, fmt.Sprintf("rel_path %q listed more than once | %s", it.RelPath, desc)) {
+				if rec.Fail(rt, "duplicate-rel-path", fmt.Sprintf("rel_path %q listed more than once | %s", it.RelPath, desc)) {
 					return
 				}
 			}
@@ -392,6 +429,22 @@ func TestVerifC13Scan(t *testing.T) {
 				return
 			}
 			if !it.IsDir {
+				// origin evidence: every source file has its own modification time; an entry whose
+				// size and time are those of the same-named file under another argument, and not
+				// those of the file it resolves to, came from that other argument
+				if own, err := os.Stat(ex.Abs); err == nil && (own.ModTime().Unix() != it.ModTime || own.Size() != it.Size) {
+					parts := strings.SplitN(it.RelPath, "/", 2)
+					for j := range paths {
+						cand := absTargets[j]
+						if len(parts) == 2 {
+							cand = filepath.Join(cand, filepath.FromSlash(parts[1]))
+						}
+						if o, err := os.Stat(cand); err == nil && !os.SameFile(o, own) && o.Mode().IsRegular() && o.ModTime().Unix() == it.ModTime && o.Size() == it.Size {
+							rec.Fail(rt, "resolves-to-other-file", fmt.Sprintf("%q carries size %d and time %d of %q but resolves to %q (size %d, time %d) | %s", it.RelPath, it.Size, it.ModTime, cand, ex.Abs, own.Size(), own.ModTime().Unix(), desc))
+							return
+						}
+					}
+				}
 				res := resolver(it.RelPath)
 				data, err := os.ReadFile(res)
 				if err != nil || int64(len(data)) != it.Size {
